@@ -118,7 +118,11 @@ void SubDeviceDispatcher::NackIfNotBroadcast(
 void SubDeviceDispatcher::HandleSubDeviceResponse(FanOutTracker *tracker,
                                                   RDMReply *reply) {
   if (tracker->NumResponses() == 0) {
-    tracker->SetResponse(reply->StatusCode(), reply->Response()->Duplicate());
+    // Broadcast / vendorcast requests (and requests for another UID) complete
+    // with a status code only, there is no response object to copy.
+    const RDMResponse *response = reply->Response();
+    tracker->SetResponse(reply->StatusCode(),
+                         response ? response->Duplicate() : NULL);
   }
 
   if (tracker->IncrementAndCheckIfComplete()) {
